@@ -16,6 +16,7 @@ import (
 	"sort"
 	"strconv"
 	"strings"
+	"sync"
 
 	"github.com/pingcap/kvproto/pkg/metapb"
 	"github.com/tikv/pd/server/core"
@@ -154,6 +155,10 @@ var errInjected = errors.New("injected storage failure")
 
 type failKV struct {
 	kv.Base
+	mu      sync.Mutex
+	park    bool          // park the next write (before it takes effect) until release is closed
+	parked  chan struct{} // closed when a write is parked
+	release chan struct{}
 	armed  bool
 	failAt int
 	n      int
@@ -162,6 +167,14 @@ type failKV struct {
 }
 
 func (f *failKV) write(key string) error {
+	f.mu.Lock()
+	park := f.park
+	f.park = false
+	f.mu.Unlock()
+	if park {
+		close(f.parked)
+		<-f.release
+	}
 	if !f.armed {
 		return nil
 	}
@@ -211,6 +224,22 @@ type world struct {
 	fkv     *failKV
 	storage *core.Storage
 	m       *placement.RuleManager
+	// a parked update (its first storage write is held by the gate) and an update issued meanwhile
+	pending chan string
+	queued  chan string
+}
+
+func (w *world) finishPending() string {
+	if w.pending == nil {
+		return ""
+	}
+	close(w.fkv.release)
+	out := <-w.pending
+	if w.queued != nil {
+		out += "+" + <-w.queued
+	}
+	w.pending, w.queued = nil, nil
+	return out
 }
 
 func newManager(st *core.Storage) (*placement.RuleManager, error) {
@@ -219,6 +248,7 @@ func newManager(st *core.Storage) (*placement.RuleManager, error) {
 }
 
 func (w *world) reset() {
+	w.finishPending()
 	w.mem = kv.NewMemoryKV()
 	w.fkv = &failKV{Base: w.mem}
 	w.storage = core.NewStorage(w.fkv)
@@ -356,6 +386,135 @@ func outOf(err error) string {
 	return "rej-content"
 }
 
+// updateCall builds the call of one update op (already stripped of fail=/wrote=).
+func (w *world) updateCall(f []string) (func() (error, string), bool) {
+	atoi := func(s string) int { n, _ := strconv.Atoi(s); return n }
+	var call func() (error, string)
+	switch {
+	case len(f) == 2 && f[0] == "set":
+		r, ok := parseRule(f[1])
+		if !ok {
+			return nil, false
+		}
+		call = func() (error, string) { return w.m.SetRule(r), "" }
+	case len(f) == 3 && f[0] == "del":
+		call = func() (error, string) {
+			return w.m.DeleteRule(name(groupNames, atoi(f[1])), name(idNames, atoi(f[2]))), ""
+		}
+	case len(f) == 2 && f[0] == "setrules":
+		rs, ok := parseRules(f[1])
+		if !ok {
+			return nil, false
+		}
+		call = func() (error, string) { return w.m.SetRules(rs), "" }
+	case len(f) == 4 && f[0] == "getmodset":
+		call = func() (error, string) {
+			r := w.m.GetRule(name(groupNames, atoi(f[1])), name(idNames, atoi(f[2])))
+			if r == nil {
+				return nil, "not-found"
+			}
+			r.Count = atoi(f[3])
+			return w.m.SetRule(r), ""
+		}
+	case len(f) == 2 && f[0] == "batch":
+		var todo []placement.RuleOp
+		if f[1] != "-" {
+			for _, it := range strings.Split(f[1], ",") {
+				switch {
+				case strings.HasPrefix(it, "+"):
+					r, ok := parseRule(it[1:])
+					if !ok {
+						return nil, false
+					}
+					todo = append(todo, placement.RuleOp{Rule: r, Action: placement.RuleOpAdd})
+				case strings.HasPrefix(it, "-"):
+					p := strings.Split(it[1:], ":")
+					if len(p) != 2 {
+						return nil, false
+					}
+					todo = append(todo, placement.RuleOp{Rule: &placement.Rule{GroupID: name(groupNames, atoi(p[0])), ID: name(idNames, atoi(p[1]))}, Action: placement.RuleOpDel})
+				case strings.HasPrefix(it, "~"):
+					p := strings.Split(it[1:], ":")
+					if len(p) != 4 {
+						return nil, false
+					}
+					prefix := p[1]
+					if prefix == "_" {
+						prefix = ""
+					}
+					// the ids with this prefix must be exactly the ranks [lo, hi) given to the model
+					lo, hi := len(idNames), 0
+					for i, n := range idNames {
+						if i > 0 && strings.HasPrefix(n, prefix) {
+							if i < lo {
+								lo = i
+							}
+							if i+1 > hi {
+								hi = i + 1
+							}
+						}
+					}
+					for i := lo; i < hi; i++ {
+						if !strings.HasPrefix(idNames[i], prefix) {
+							return nil, false
+						}
+					}
+					if hi == 0 {
+						lo = 0
+					}
+					if lo != atoi(p[2]) || hi != atoi(p[3]) {
+						return nil, false
+					}
+					todo = append(todo, placement.RuleOp{Rule: &placement.Rule{GroupID: name(groupNames, atoi(p[0])), ID: prefix}, Action: placement.RuleOpDel, DeleteByIDPrefix: true})
+				default:
+					return nil, false
+				}
+			}
+		}
+		call = func() (error, string) { return w.m.Batch(todo), "" }
+	case len(f) == 4 && f[0] == "setgroup":
+		g := &placement.RuleGroup{ID: name(groupNames, atoi(f[1])), Index: atoi(f[2]), Override: f[3] == "1"}
+		call = func() (error, string) { return w.m.SetRuleGroup(g), "" }
+	case len(f) == 2 && f[0] == "delgroup":
+		call = func() (error, string) { return w.m.DeleteRuleGroup(name(groupNames, atoi(f[1]))), "" }
+	case len(f) == 2 && f[0] == "setbundle":
+		b, ok := parseBundle(f[1])
+		if !ok {
+			return nil, false
+		}
+		call = func() (error, string) { return w.m.SetGroupBundle(b), "" }
+	case len(f) == 3 && f[0] == "setall":
+		var bs []placement.GroupBundle
+		if f[2] != "-" {
+			for _, s := range strings.Split(f[2], ";") {
+				b, ok := parseBundle(s)
+				if !ok {
+					return nil, false
+				}
+				bs = append(bs, b)
+			}
+		}
+		call = func() (error, string) { return w.m.SetAllGroupBundles(bs, f[1] == "1"), "" }
+	case len(f) == 2 && f[0] == "delbundle":
+		call = func() (error, string) { return w.m.DeleteGroupBundle(name(groupNames, atoi(f[1])), false), "" }
+	case len(f) == 3 && f[0] == "delbundlere":
+		// the groups matched by the pattern must be exactly the ranks given to the model
+		var want []string
+		for i, n := range groupNames {
+			if i > 0 && strings.Contains(n, f[1]) {
+				want = append(want, strconv.Itoa(i))
+			}
+		}
+		if joinOr("-", ",", want) != f[2] {
+			return nil, false
+		}
+		call = func() (error, string) { return w.m.DeleteGroupBundle(f[1], true), "" }
+	default:
+		return nil, false
+	}
+	return call, true
+}
+
 // exec runs one op; it returns the op as it must appear in the trace (with the harness-reported `wrote=`) and the result.
 func (w *world) exec(op string) (string, string) {
 	var f []string
@@ -375,7 +534,60 @@ func (w *world) exec(op string) (string, string) {
 	atoi := func(s string) int { n, _ := strconv.Atoi(s); return n }
 	core0 := strings.Join(f, " ")
 	simple := func(out string) (string, string) { return core0, out + " " + w.obs() }
+	runCall := func(call func() (error, string)) string {
+		err, special := call()
+		if special != "" {
+			return special
+		}
+		return outOf(err)
+	}
+	if w.pending != nil && f[0] != "during" && f[0] != "release" && f[0] != "reset" {
+		return op, "bad-op" // the manager is inside an update: nothing but during/release/reset
+	}
 	switch {
+	case f[0] == "park" && len(f) >= 2 && failAt < 0:
+		// start the update; its first storage write is parked by the gate (the manager's lock is held meanwhile)
+		call, ok := w.updateCall(f[1:])
+		if !ok {
+			return op, "bad-op"
+		}
+		w.fkv.mu.Lock()
+		w.fkv.park, w.fkv.parked, w.fkv.release = true, make(chan struct{}), make(chan struct{})
+		w.fkv.mu.Unlock()
+		done := make(chan string, 1)
+		go func() { done <- runCall(call) }()
+		select {
+		case <-w.fkv.parked:
+			w.pending = done
+			return core0, "parked"
+		case out := <-done: // finished without any storage write
+			w.fkv.mu.Lock()
+			w.fkv.park = false
+			w.fkv.mu.Unlock()
+			return simple(out)
+		}
+	case f[0] == "during" && len(f) >= 2 && failAt < 0:
+		if w.pending == nil || w.queued != nil {
+			return op, "bad-op"
+		}
+		call, ok := w.updateCall(f[1:])
+		if !ok {
+			return op, "bad-op"
+		}
+		if w.m.TryLock() {
+			// the update in progress does not hold the manager's lock: this one runs right away
+			w.m.Unlock()
+			return core0, "not-blocked " + runCall(call)
+		}
+		done := make(chan string, 1)
+		go func() { done <- runCall(call) }()
+		w.queued = done
+		return core0, "blocked"
+	case len(f) == 1 && f[0] == "release":
+		if w.pending == nil {
+			return op, "bad-op"
+		}
+		return simple(w.finishPending())
 	case len(f) == 1 && f[0] == "reset":
 		w.reset()
 		return simple("ok")
@@ -402,127 +614,8 @@ func (w *world) exec(op string) (string, string) {
 		_ = w.mem.Remove("rules/" + hex.EncodeToString([]byte(name(groupNames, atoi(f[1])))) + "-" + hex.EncodeToString([]byte(name(idNames, atoi(f[2])))))
 		return simple("ok")
 	}
-	var call func() (error, string)
-	switch {
-	case len(f) == 2 && f[0] == "set":
-		r, ok := parseRule(f[1])
-		if !ok {
-			return op, "bad-op"
-		}
-		call = func() (error, string) { return w.m.SetRule(r), "" }
-	case len(f) == 3 && f[0] == "del":
-		call = func() (error, string) {
-			return w.m.DeleteRule(name(groupNames, atoi(f[1])), name(idNames, atoi(f[2]))), ""
-		}
-	case len(f) == 2 && f[0] == "setrules":
-		rs, ok := parseRules(f[1])
-		if !ok {
-			return op, "bad-op"
-		}
-		call = func() (error, string) { return w.m.SetRules(rs), "" }
-	case len(f) == 4 && f[0] == "getmodset":
-		call = func() (error, string) {
-			r := w.m.GetRule(name(groupNames, atoi(f[1])), name(idNames, atoi(f[2])))
-			if r == nil {
-				return nil, "not-found"
-			}
-			r.Count = atoi(f[3])
-			return w.m.SetRule(r), ""
-		}
-	case len(f) == 2 && f[0] == "batch":
-		var todo []placement.RuleOp
-		if f[1] != "-" {
-			for _, it := range strings.Split(f[1], ",") {
-				switch {
-				case strings.HasPrefix(it, "+"):
-					r, ok := parseRule(it[1:])
-					if !ok {
-						return op, "bad-op"
-					}
-					todo = append(todo, placement.RuleOp{Rule: r, Action: placement.RuleOpAdd})
-				case strings.HasPrefix(it, "-"):
-					p := strings.Split(it[1:], ":")
-					if len(p) != 2 {
-						return op, "bad-op"
-					}
-					todo = append(todo, placement.RuleOp{Rule: &placement.Rule{GroupID: name(groupNames, atoi(p[0])), ID: name(idNames, atoi(p[1]))}, Action: placement.RuleOpDel})
-				case strings.HasPrefix(it, "~"):
-					p := strings.Split(it[1:], ":")
-					if len(p) != 4 {
-						return op, "bad-op"
-					}
-					prefix := p[1]
-					if prefix == "_" {
-						prefix = ""
-					}
-					// the ids with this prefix must be exactly the ranks [lo, hi) given to the model
-					lo, hi := len(idNames), 0
-					for i, n := range idNames {
-						if i > 0 && strings.HasPrefix(n, prefix) {
-							if i < lo {
-								lo = i
-							}
-							if i+1 > hi {
-								hi = i + 1
-							}
-						}
-					}
-					for i := lo; i < hi; i++ {
-						if !strings.HasPrefix(idNames[i], prefix) {
-							return op, "bad-op"
-						}
-					}
-					if hi == 0 {
-						lo = 0
-					}
-					if lo != atoi(p[2]) || hi != atoi(p[3]) {
-						return op, "bad-op"
-					}
-					todo = append(todo, placement.RuleOp{Rule: &placement.Rule{GroupID: name(groupNames, atoi(p[0])), ID: prefix}, Action: placement.RuleOpDel, DeleteByIDPrefix: true})
-				default:
-					return op, "bad-op"
-				}
-			}
-		}
-		call = func() (error, string) { return w.m.Batch(todo), "" }
-	case len(f) == 4 && f[0] == "setgroup":
-		g := &placement.RuleGroup{ID: name(groupNames, atoi(f[1])), Index: atoi(f[2]), Override: f[3] == "1"}
-		call = func() (error, string) { return w.m.SetRuleGroup(g), "" }
-	case len(f) == 2 && f[0] == "delgroup":
-		call = func() (error, string) { return w.m.DeleteRuleGroup(name(groupNames, atoi(f[1]))), "" }
-	case len(f) == 2 && f[0] == "setbundle":
-		b, ok := parseBundle(f[1])
-		if !ok {
-			return op, "bad-op"
-		}
-		call = func() (error, string) { return w.m.SetGroupBundle(b), "" }
-	case len(f) == 3 && f[0] == "setall":
-		var bs []placement.GroupBundle
-		if f[2] != "-" {
-			for _, s := range strings.Split(f[2], ";") {
-				b, ok := parseBundle(s)
-				if !ok {
-					return op, "bad-op"
-				}
-				bs = append(bs, b)
-			}
-		}
-		call = func() (error, string) { return w.m.SetAllGroupBundles(bs, f[1] == "1"), "" }
-	case len(f) == 2 && f[0] == "delbundle":
-		call = func() (error, string) { return w.m.DeleteGroupBundle(name(groupNames, atoi(f[1])), false), "" }
-	case len(f) == 3 && f[0] == "delbundlere":
-		// the groups matched by the pattern must be exactly the ranks given to the model
-		var want []string
-		for i, n := range groupNames {
-			if i > 0 && strings.Contains(n, f[1]) {
-				want = append(want, strconv.Itoa(i))
-			}
-		}
-		if joinOr("-", ",", want) != f[2] {
-			return op, "bad-op"
-		}
-		call = func() (error, string) { return w.m.DeleteGroupBundle(f[1], true), "" }
-	default:
+	call, ok := w.updateCall(f)
+	if !ok {
 		return op, "bad-op"
 	}
 	w.fkv.armed, w.fkv.failAt, w.fkv.n, w.fkv.failed, w.fkv.wrote = failAt >= 0, failAt, 0, false, nil
@@ -778,6 +871,19 @@ func (g *gen) sequence(maxOps int, corrupt bool) {
 			continue
 		}
 		g.bad = r.Bool(1, 10)
+		if r.Bool(1, 10) {
+			// two updates overlapping in time: the first is parked inside its storage write, the second is issued meanwhile
+			g.bad = false
+			if g.w.run(g.t, "park "+g.update()) == "parked" {
+				if r.Bool(9, 10) {
+					g.hist["during:"+g.w.run(g.t, "during "+g.update())]++
+				}
+				g.hist["gated-release"]++
+				g.w.run(g.t, "release")
+			}
+			retry = ""
+			continue
+		}
 		op := g.update()
 		if retry != "" && r.Bool(3, 5) {
 			op = retry
@@ -900,6 +1006,7 @@ func main() {
 		for _, op := range trace.ReadOps(*replay) {
 			w.run(t, op)
 		}
+		w.finishPending()
 		return
 	}
 	g := &gen{r: rng.FromEnv(*stream), w: w, t: t, hist: map[string]int{}}
